@@ -18,7 +18,10 @@ RULE = ("seeded histories of 1-12 calls over two parsers drawn from: config argu
         "(optionally one required), class-typed option Base/SubA/SubB (plain and Callable[[int], Base], also given the "
         "callable non-Base class Fac), a dataclass-typed option d: Optional[Data]; the class / Callable / dataclass options "
         "either from add_argument or from a signature (add_class_arguments: non-empty per-action sub_add_kwargs); a "
-        "parse-time link into the class' init_args, two sub-commands (optional/required, with their own config argument); "
+        "parse-time link into the class' init_args (from an int option with the same type in every class; and, link "
+        "family: from the group key g of a dataclass-typed argument, without compute_fn, into init_arg o of an option "
+        "typed LBase whose subclasses annotate o as dict (WD) and as the dataclass (WO)), two sub-commands "
+        "(optional/required, with their own config argument); "
         "dict-like sources give class options as class_path + init_args or init_args alone, and d as a partial mapping; calls: "
         "parse_args (valid, invalid value, unknown option, bad print_config flag, --help, --print_config[=flags] before/"
         "after a failure, inside a sub-command, before a --cfg, class help with and without trailing arguments, unknown "
@@ -44,7 +47,8 @@ ASSUMPTIONS = [
     "single thread, single contextvars.Context per history",
     "the dataclass option d is Optional[Data] with Data(a: int = 0, b: int = 0) (no required field); dict-like sources "
     "give d as one mapping; at most one --cfg of a command line gives d and no field of d follows it on that line; a "
-    "dict-like source names a class option once (class first, then its parameters); the environment never "
+    "dict-like source names a class option once (class first, then its parameters); the linked init_arg o of the "
+    "link family is never given by the user (the link overrides it); the environment never "
     "gives d; dump(skip_default=True) is not generated for parsers with class or dataclass options",
 ]
 EXHAUSTIVE = {"quick": False, "thorough": False}
@@ -57,6 +61,23 @@ FLAGSETS = ["skip_null", "comments", "skip_default", "skip_null,comments", "", "
 # dump(skip_default=True) of a configuration that holds a class raises AttributeError in _dump_delete_default_entries
 # (not a matter of history; belongs to C01/C03): skip_default is only generated for parsers without class options
 FLAGSETS_NO_SD = [f for f in FLAGSETS if "skip_default" not in f]
+
+
+def co3(co):
+    """a class option [name, callable] (base Base) or [name, callable, base]"""
+    return co[0], co[1], (co[2] if len(co) > 2 else "Base")
+
+
+def pick_cls(rng, co):
+    """a class name for a class option: mostly subclasses of its base, sometimes a class of the other family, Fac, Nope"""
+    _, cal, base = co3(co)
+    if base == "LBase":
+        return rng.choice(["WD", "WO", "WD", "WO", "WO", "Nope", "SubA"])
+    return rng.choice(["SubA", "SubB", "SubA", "Nope", "Base", FAC if cal or rng.random() < 0.3 else "SubB",
+                       "WD" if rng.random() < 0.2 else "SubB"])
+
+
+PARAMS = {"SubA": ["a", "c"], "SubB": ["a", "b"], "Base": ["a"], "Nope": ["a"], "WD": ["a"], "WO": ["a"]}
 
 
 def flagsets(decl):
@@ -81,6 +102,13 @@ def gen_decl(rng):
     # added from a signature (add_class_arguments(Holder)), so that action.sub_add_kwargs is a non-empty dict
     root["dc"] = rng.random() < 0.4
     root["sig"] = root["dc"] or (bool(root["cls"]) and rng.random() < 0.5)
+    # lk: a group g of two int fields (a dataclass-typed argument), an option lm typed LBase (subclasses WD(o: dict),
+    # WO(o: Data)), and a parse-time link WITHOUT compute_fn from the group key to the class' init_args:
+    # link_arguments("g", "lm.init_args.o")
+    if rng.random() < 0.3:
+        root["lk"] = True
+        root["opts"] += [["g.a", "int"], ["g.b", "int"]]
+        root["cls"].append(["lm", False, "LBase"])
     subs = []
     subreq = False
     if rng.random() < 0.55:
@@ -159,10 +187,10 @@ def gen_cfg_items(rng, decl):
 def gen_cls_items(rng, co, p_bad):
     """dict-like source: a class option (the class first, then parameters of it), or parameters alone (init_args
     without class_path: completed from the previous / default class)"""
-    cn, cal = co
+    cn, cal, _ = co3(co)
     x = rng.random()
-    cls = rng.choice(["SubA", "SubB", "Base", "SubA", FAC if cal or rng.random() < 0.3 else "SubB", "Nope"])
-    params = {"SubA": ["a", "c"], "SubB": ["a", "b"], "Base": ["a"], FAC: ["a", "z"], "Nope": ["a"]}[cls]
+    cls = pick_cls(rng, co)
+    params = PARAMS.get(cls, ["a", "z"])
     res = [] if x < 0.25 else [[cn, cls]]
     if x < 0.25:
         params = ["a", "a", "c", "b"]
@@ -195,9 +223,10 @@ def gen_argv(rng, decl):
         elif x < 0.58:
             toks.append(["cfg", gen_cfg_items(rng, decl)])
         elif x < 0.72 and root["cls"]:
-            cn, cal = rng.choice(root["cls"])
+            co = rng.choice(root["cls"])
+            cn, cal, _ = co3(co)
             y = rng.random()
-            cls = rng.choice(["SubA", "SubB", "SubA", "Nope", FAC if cal or rng.random() < 0.3 else "Base"])
+            cls = pick_cls(rng, co)
             if y < 0.5:
                 toks.append(["opt", cn, cls])
                 if rng.random() < 0.6 and cls != "Nope":
@@ -262,7 +291,7 @@ def gen_items(rng, decl, valid_only):
     if root["cls"] and rng.random() < 0.45:
         co = rng.choice(root["cls"])
         if valid_only:
-            cls_items = [[co[0], rng.choice(["SubA", "SubB", "Base"])]]
+            cls_items = [[co[0], rng.choice(["WD", "WO"] if co3(co)[2] == "LBase" else ["SubA", "SubB", "Base"])]]
         else:
             cls_items = gen_cls_items(rng, co, 0.08)
     d_item = None
@@ -346,6 +375,8 @@ CB = {"root": {"cfg": True, "opts": [["k", "int"], ["s", "str"]], "req": [], "cl
       "subreq": False, "subs": []}
 MODEL = {"root": {"cfg": True, "opts": [["k", "int"], ["s", "str"]], "req": [], "cls": [["model", False]], "links": []},
          "subreq": False, "subs": []}
+LINKED = {"root": {"cfg": True, "opts": [["k", "int"], ["s", "str"], ["g.a", "int"], ["g.b", "int"]], "req": [],
+                   "cls": [["model", False], ["lm", False, "LBase"]], "links": [], "lk": True}, "subreq": False, "subs": []}
 DC = {"root": {"cfg": True, "opts": [["k", "int"], ["s", "str"]], "req": [], "cls": [], "links": [], "sig": True, "dc": True},
       "subreq": False, "subs": []}
 SIG_MC = {"root": {"cfg": True, "opts": [["k", "int"], ["s", "str"]], "req": [], "cls": [["model", False], ["cb", True]],
@@ -458,6 +489,20 @@ def scripted_cases():
         {"p": 1, "op": "parse_object", "items": [["cb.a", "7"]]},
         {"p": 0, "op": "parse_args", "argv": [["cfg", [["model.a", "2"]]]]},
         {"p": 1, "op": "parse_string", "items": [["d", "3,"]]}]))
+    # parse-time link without compute_fn from a group key into the init_args of a class option: the class changes
+    # from call to call (o: dict in WD, o: Data in WO), through every kind of source
+    hs.append(([LINKED, PLAIN], [
+        {"p": 0, "op": "parse_args", "argv": [["opt", "lm", "WO"], ["opt", "g.a", "3"]]},
+        {"p": 0, "op": "parse_args", "argv": [["opt", "lm", "WD"], ["opt", "g.a", "3"]]},
+        {"p": 0, "op": "parse_object", "items": [["lm", "WO"], ["lm.a", "2"], ["g.b", "7"]]},
+        {"p": 0, "op": "parse_string", "items": [["g.a", "2"], ["lm", "WD"]]},
+        {"p": 0, "op": "parse_args", "argv": [["cfg", [["lm", "WO"]]], ["opt", "g.b", "12"]]},
+        {"p": 0, "op": "parse_env", "items": [["g.a", "7"]]},
+        {"p": 0, "op": "dump", "items": [["lm", "WD"], ["g.a", "2"]], "corrupt": False,
+         "flags": {"skip_none": False, "skip_default": False, "skip_validation": False}},
+        {"p": 0, "op": "instantiate", "items": [["lm", "WO"]]},
+        {"p": 0, "op": "parse_args", "argv": [["opt", "lm", "WD"], ["flag", "print_config"]]},
+        {"p": 0, "op": "parse_args", "argv": [["opt", "lm", "WO"]]}]))
     # a request consumed by an EMPTY --cfg inside parse_args dumps nothing (dump_kwargs stays unset)
     hs.append(([plain, subs], [
         {"p": 0, "op": "parse_args", "argv": [["flag", "print_config"], ["opt", "k", "5"], ["cfg", []], ["opt", "k", "bad"]]},
@@ -553,7 +598,8 @@ def g_pdecl(pd):
         g_bool(pd["cfg"]),
         g_list([g_pair(g_str(n), g_kind(k)) for n, k in pd["opts"]], "(str * kind)"),
         g_list([g_str(r) for r in pd["req"]], "str"),
-        g_list(["{| co_name := %s; co_callable := %s |}" % (g_str(n), g_bool(c)) for n, c in pd["cls"]], "copt"),
+        g_list(["{| co_name := %s; co_base := %s; co_callable := %s |}" % (g_str(co3(co)[0]), g_str(co3(co)[2]), g_bool(co3(co)[1]))
+                for co in pd["cls"]], "copt"),
         g_bool(bool(pd.get("dc"))))
 
 
@@ -747,8 +793,9 @@ META = {
         "itself. "
         "Only exercised by the correspondence run (not proved about the code): that the model is the code. The run executes "
         "seeded histories of 1-12 calls over two real parsers (config argument, int/str/required options, class-typed, "
-        "Callable-typed and dataclass-typed options added by add_argument or from a signature, a parse-time link, "
-        "optional/required sub-commands) and compares, per step and inside Coq, (a) the abstraction of the REAL carried "
+        "Callable-typed and dataclass-typed options added by add_argument or from a signature, parse-time links into "
+        "class init_args (from a scalar option and, without compute_fn, from a dataclass group into an init_arg whose "
+        "annotation differs between the subclasses), optional/required sub-commands) and compares, per step and inside Coq, (a) the abstraction of the REAL carried "
         "state before and after the step (deep snapshot of every parser's and action's __dict__ including each action's "
         "sub_add_kwargs, all jsonargparse ContextVars, mutable module globals and class attributes; anything the model does "
         "not explain is a disagreement) with the model state, (b) the kind of answer on the re-used parser and on a fresh "
@@ -761,7 +808,8 @@ META = {
         "correspondence (unexplained differences of the deep snapshot count as disagreement) is what argues that nothing "
         "else is carried, on the generated histories only. Not modelled: values/messages inside answers other than d, "
         "dataclasses with required fields, partial d values left by a --cfg (generator avoids them), nested class-typed "
-        "parameters (linked_targets propagation), parse_args(defaults=False/env=...), default_config_files, ActionParser, "
+        "parameters (linked_targets propagation into nested class parsers), links with compute_fn or applied on "
+        "instantiate, parse_args(defaults=False/env=...), default_config_files, ActionParser, "
         "nested sub-commands, threads / several contextvars.Context. The model variant (pinned or repaired at each of the "
         "four sites) is selected per run by replaying the four refutation witnesses on the implementation and is recorded in "
         "the evidence (coverage.model_variant). Trusted: Coq kernel/VM, tie/impl/c09_history.py (builder, abstraction, "
